@@ -24,6 +24,15 @@ class TurboEnv:
     sample_rate = 40000
 
 
+def checksum(data):
+    # 16-bit sum with end-around carry, as computed by the BK-0010 monitor:
+    # whenever the sum overflows 16 bits, the carry is added back in
+    result = sum(data)
+    while result > 0xffff:
+        result = (result & 0xffff) + (result >> 16)
+    return result
+
+
 def encode_as_wav(base, code, bk_filename, turbo=False):
     env = TurboEnv if turbo else Env
     return make_wav_file(
@@ -33,7 +42,7 @@ def encode_as_wav(base, code, bk_filename, turbo=False):
             + env.PAUSE
             + encode_data_bits(code, env)
             + (env.PAUSE if turbo else b"")
-            + encode_data_bits(struct.pack("<H", sum(code) % (2 ** 16 - 1)), env)
+            + encode_data_bits(struct.pack("<H", checksum(code)), env)
             + env.EOF
         ),
         env.sample_rate
